@@ -82,6 +82,9 @@ var probes = [][]string{
 	{`{ $2++; $2 += 2; A[$1]++; A[$1] *= 3; NF += 1; print; print A[$1], NF }`, `{ ($2++); ($2 += 2); (A[$1]++); (A[$1] *= 3); (NF += 1); print; print A[$1], NF }`},
 	{`function f(a, b, R) { R["k"] = a; b++; return a b } BEGIN { print f(1), f(1, 2), f(1, 2, A), A["k"] }`, `function f(a, b, R) { (R["k"] = a); (b++); return (a b) } BEGIN { print f(1), f(1, 2), f(1, 2, A), A["k"] }`},
 	{`BEGIN { s = "aXbXc"; n = gsub(/X/, "-", s); print n, s; $0 = "p q"; sub(/p/, "[&]"); print; sub(/zzz/, "y", $2); print NF }`, `BEGIN { s = "aXbXc"; n = (gsub(/X/, "-", s)); print n, s; $0 = "p q"; (sub(/p/, "[&]")); print; (sub(/zzz/, "y", $2)); print NF }`},
+	{`{ { } }`, `{}`, `{ ; }`, `{ { } { { } } }`},
+	{`/a/ { { } { } } END { { } }`, `/a/ {} END {}`, `/a/ { ; } END { ; }`},
+	{`BEGIN { { } } END { if (0) { } ; print NR }`, `BEGIN {} END { if (0) ; print NR }`},
 	{`BEGIN { a = 1; b = "x"; c = 2.5; print a b c a, a b, (a b) c }`, `BEGIN { a = 1; b = "x"; c = 2.5; print ((a b) c) a, a b, (a b) c }`},
 }
 
